@@ -53,7 +53,8 @@ def cases(seed, tier):
     for i in range(n_blind):
         shape = (int(rng.integers(100, 180)), int(rng.integers(100, 180)))
         spec = fields.gen_field(rng, n_sources=int(rng.integers(0, 28)), shape=shape, plateau=bool(rng.random() < 0.25),
-                                tiny=int(rng.integers(0, 6)), nan_blocks=int(rng.integers(0, 3)), edge=int(rng.integers(0, 4)))
+                                tiny=int(rng.integers(0, 6)), nan_blocks=int(rng.integers(0, 3)), edge=int(rng.integers(0, 4)),
+                                far_from_crval=bool(i % 4 == 3))
         if i == 0:
             spec['sources'] = []
             spec['spikes'] = []           # the empty catalogue
@@ -241,6 +242,9 @@ def run(case):
         rms = float(case['field']['noise'] or 1.0)
         fn = os.path.join(sc, 'field.fits')
         fits.PrimaryHDU(img, header=h).writeto(fn, overwrite=True)
+        from aegmon.refs import sphere as _sph
+        if truth:
+            o.worst('field_offset_from_crval_deg', max(float(_sph.sep(case['field']['crval'][0], case['field']['crval'][1], t_['ra'], t_['dec'])) for t_ in truth))
         ctx = {'mode': {k: case[k] for k in case if k != 'field'}, 'field': {k: case['field'][k] for k in ('proj', 'shape', 'scale', 'noise_seed')},
                'n_injected': len(truth)}
         if case.get('fresh'):
